@@ -266,13 +266,22 @@ class Choice(Type):
             ', '.join([repr(member) for member in self.members]))
 
 
+def format_string(data):
+    """A StringValue: the string in double quotes, with every double
+    quote in it doubled (RFC 3641, section 3.2).
+
+    """
+
+    return u'"{}"'.format(data.replace('"', '""'))
+
+
 class UTF8String(Type):
 
     def __init__(self, name):
         super(UTF8String, self).__init__(name, 'UTF8String')
 
     def encode(self, data, _separator, _indent):
-        return u'"{}"'.format(data)
+        return format_string(data)
 
 
 class NumericString(Type):
@@ -281,7 +290,7 @@ class NumericString(Type):
         super(NumericString, self).__init__(name, 'NumericString')
 
     def encode(self, data, _separator, _indent):
-        return u'"{}"'.format(data)
+        return format_string(data)
 
 
 class PrintableString(Type):
@@ -290,7 +299,7 @@ class PrintableString(Type):
         super(PrintableString, self).__init__(name, 'PrintableString')
 
     def encode(self, data, _separator, _indent):
-        return u'"{}"'.format(data)
+        return format_string(data)
 
 
 class IA5String(Type):
@@ -299,7 +308,7 @@ class IA5String(Type):
         super(IA5String, self).__init__(name, 'IA5String')
 
     def encode(self, data, _separator, _indent):
-        return u'"{}"'.format(data)
+        return format_string(data)
 
 
 class VisibleString(Type):
@@ -308,7 +317,7 @@ class VisibleString(Type):
         super(VisibleString, self).__init__(name, 'VisibleString')
 
     def encode(self, data, _separator, _indent):
-        return u'"{}"'.format(data)
+        return format_string(data)
 
 
 class GeneralString(Type):
@@ -317,7 +326,7 @@ class GeneralString(Type):
         super(GeneralString, self).__init__(name, 'GeneralString')
 
     def encode(self, data, _separator, _indent):
-        return u'"{}"'.format(data)
+        return format_string(data)
 
 
 class BMPString(Type):
@@ -326,7 +335,7 @@ class BMPString(Type):
         super(BMPString, self).__init__(name, 'BMPString')
 
     def encode(self, data, _separator, _indent):
-        return u'"{}"'.format(data)
+        return format_string(data)
 
 
 class GraphicString(Type):
@@ -335,7 +344,7 @@ class GraphicString(Type):
         super(GraphicString, self).__init__(name, 'GraphicString')
 
     def encode(self, data, _separator, _indent):
-        return u'"{}"'.format(data)
+        return format_string(data)
 
 
 class UniversalString(Type):
@@ -344,7 +353,7 @@ class UniversalString(Type):
         super(UniversalString, self).__init__(name, 'UniversalString')
 
     def encode(self, data, _separator, _indent):
-        return u'"{}"'.format(data)
+        return format_string(data)
 
 
 class TeletexString(Type):
@@ -353,7 +362,7 @@ class TeletexString(Type):
         super(TeletexString, self).__init__(name, 'TeletexString')
 
     def encode(self, data, _separator, _indent):
-        return u'"{}"'.format(data)
+        return format_string(data)
 
 
 class ObjectDescriptor(GraphicString):
